@@ -66,8 +66,16 @@ def sym_jitter(ev, st, g):
 
 
 def run(chk, tier):
+    from ..report import Suffixed
+    run_config(chk, tier, None)
+    # the same with the optional features on (std + log): the logging macros expand to code there
+    run_config(Suffixed(chk, " [std+log]"), tier, "jitter-std")
+
+
+def run_config(chk, tier, config):
     global GEN
-    crate = Crate("rand_jitter")
+    crate = Crate("rand_jitter", config) if config else Crate("rand_jitter")
+    crate.neutral_crates = {"log"}  # the log facade gets formatted copies only (that it cannot reach the generator is C19's)
     chk.config(crate.config)
     g = Gen(crate, "JitterRng")
     GEN = jitter_roles(crate)["gen_entropy"]
@@ -257,6 +265,33 @@ def rounds_loop(chk, crate, g):
         r = found[0]
         chk.ob("R5", "gen_entropy|every round passes through at least one timer read", r.min_ticks >= 1,
                "minimum timer reads per round on any path: %d" % r.min_ticks, where=crate.bodies[genkey]["span"][0])
+        # the number of iterations as a function of the stored round count, composed with what set_rounds(r) stores: at least r
+        # iterations for every r the setter accepts (1..=255)
+        t, cmp_ = found[1], found[2]
+        trips = cmp_.args[1] if (cmp_.op == "ult" and cmp_.args[0] is t) else rounds
+        try:
+            sdef = sq.find_method(crate, "rand_jitter::JitterRng::<F>::set_rounds", "JitterRng", "set_rounds")
+            skey = next((k for k in crate.bodies if crate.bodies[k]["def"] == sdef), None)
+            if skey is None:
+                raise Anchor("set_rounds not found")
+            chk.body(skey)
+            ev2 = crate.evaluator()
+            st2 = State()
+            ref2, oid2, v2 = sym_jitter(ev2, st2, g)
+            arg = T.sym("r", 8)
+            ev2.call_body(st2, skey, [ref2, arg])
+            stored = st2.objs[oid2].fields[find_field(adt, "rounds", "u8")]
+            bad = []
+            for rv in range(1, 256):
+                fv = T.subst(stored, {arg: T.const(rv, 8)}) if isinstance(stored, T.T) else None
+                tv = T.subst(trips, {rounds: fv}) if fv is not None else None
+                if tv is None or tv.op != "const" or tv.aux < rv:
+                    bad.append((rv, T.show(tv, 2) if tv is not None else None))
+            chk.ob("R5", "set_rounds(r)|the rounds loop then runs at least r times, for every r in 1..=255", not bad,
+                   "r = %s gives %s iteration(s)" % bad[0] if bad else "", where=crate.bodies[skey]["span"][0],
+                   sample={"stored": T.show(stored, 2) if isinstance(stored, T.T) else None, "iterations": T.show(trips, 2)})
+        except (Anchor, Unsupported, SymbolicLoop, Diverged) as e:
+            chk.ob("R5", "set_rounds(r)|rounds loop runs at least r times", False, "not established: %s" % e)
 
 
 def exposure(t, acc):
